@@ -1,23 +1,35 @@
-(* Proto/Bot.v (draft): playtak/bot/bot.go handleMove as a transition system over an abstract game *)
-From Coq Require Import List Bool Lia.
+(* Proto/Bot.v: playtak/bot/bot.go, PlayGame/ObserveGame + handleMove, as a transition system over an
+   abstract game, together with the environment (the playtak server) the property speaks about.
+   Model only; the proofs are in BotFacts.v, the instantiation with the rules model in BotInst.v.
+
+   One state = the protocol loop blocked in the select of handleMove (or finished).  What belongs to the
+   current INVOCATION of handleMove: the position its thinker goroutine was given (spawned_on), whether
+   the local channel variable `moves` is still non-nil (enabled), whether that thinker has already
+   written its answer (answered), whether `timeout` is non-nil (armed).  Thinkers of earlier invocations
+   write into channels nobody reads any more: their returns are the event `Late`. *)
+From Coq Require Import List Bool Arith.
 Import ListNotations.
 
 Section Bot.
 Variables (pos move : Type).
-Variable apply : pos -> move -> option pos.
-Variable bots_turn : pos -> bool.         (* p.ToMove() == g.Color *)
-Variable over : pos -> bool.
+Variable apply : pos -> move -> option pos.   (* Position.Move: None = error *)
+Variable bots_turn : pos -> bool.         (* p.ToMove() == g.Color; constantly false for an observer (NoColor) *)
+Variable over : pos -> bool.              (* p.GameOver() *)
 Variable start : pos.
-Variable fixed : bool.                    (* false = the pinned code, true = pending answer dropped when the position changes *)
-Variable accept_undo : bool.
+Variable fixed : bool.                    (* false = the pinned code; true = the repaired loop: moveCancel(); moves = nil on a P/M line *)
+Variable accept_undo : bool.              (* Bot.AcceptUndo() *)
 
 Inductive line :=
-| LMove (m : move)            (* "Game#id P ..." / "M ..." *)
-| LTime | LReqUndo | LUndo | LOver | LAbandoned | LOther.
+| LMove (m : move)            (* "Game#id P ..." / "M ..." that ParseServer accepts *)
+| LBad                        (* a line on which the loop panics: P/M text ParseServer rejects, missing fields *)
+| LTime | LReqUndo | LUndo | LOver | LAbandoned
+| LOther.                     (* chat, other games, unknown commands: ignored *)
 
 Inductive event :=
-| Line (l : line)
-| Answer (m : move)           (* the CURRENT invocation's thinker delivers m, computed for the position it was spawned on *)
+| Line (l : line)             (* the next server line is received *)
+| Closed                      (* the receive channel is closed *)
+| Answer (m : move)           (* the CURRENT invocation's thinker delivers m (computed for the position it was spawned on) *)
+| Late (m : move)             (* a thinker of an earlier invocation returns: its channel is dead *)
 | Grace.                      (* the 500 ms timer of the current invocation fires *)
 
 Record sent := { s_pos : pos; s_for : pos; s_move : move }.     (* position when sent, position the answer was computed for *)
@@ -29,10 +41,10 @@ Record state := {
   enabled : bool;             (* moves != nil *)
   answered : bool;            (* the thinker of this invocation has already delivered *)
   armed : bool;               (* timeout != nil *)
-  out : list sent;
+  out : list sent;            (* moves passed to SendCommand, newest first *)
   undo_acks : nat;            (* "RequestUndo" lines sent *)
-  ended : bool;
-  crashed : bool }.
+  ended : bool;               (* PlayGame returned *)
+  crashed : bool }.           (* PlayGame panicked *)
 
 Definition cur (s : state) : pos := hd start (hist s).
 
@@ -44,101 +56,144 @@ Definition init : state :=
   restart {| hist := [start]; moves := []; spawned_on := start; enabled := false; answered := false; armed := false;
              out := []; undo_acks := 0; ended := false; crashed := false |}.
 
+Definition set_enabled (b : bool) (s : state) : state :=
+  {| hist := hist s; moves := moves s; spawned_on := spawned_on s; enabled := b; answered := answered s;
+     armed := armed s; out := out s; undo_acks := undo_acks s; ended := ended s; crashed := crashed s |}.
+Definition set_answered (s : state) : state :=
+  {| hist := hist s; moves := moves s; spawned_on := spawned_on s; enabled := enabled s; answered := true;
+     armed := armed s; out := out s; undo_acks := undo_acks s; ended := ended s; crashed := crashed s |}.
+Definition set_armed (s : state) : state :=
+  {| hist := hist s; moves := moves s; spawned_on := spawned_on s; enabled := enabled s; answered := answered s;
+     armed := true; out := out s; undo_acks := undo_acks s; ended := ended s; crashed := crashed s |}.
+Definition set_record (h : list pos) (ms : list move) (s : state) : state :=
+  {| hist := h; moves := ms; spawned_on := spawned_on s; enabled := enabled s; answered := answered s;
+     armed := armed s; out := out s; undo_acks := undo_acks s; ended := ended s; crashed := crashed s |}.
+Definition add_sent (o : sent) (s : state) : state :=
+  {| hist := hist s; moves := moves s; spawned_on := spawned_on s; enabled := enabled s; answered := answered s;
+     armed := armed s; out := o :: out s; undo_acks := undo_acks s; ended := ended s; crashed := crashed s |}.
+Definition add_ack (s : state) : state :=
+  {| hist := hist s; moves := moves s; spawned_on := spawned_on s; enabled := enabled s; answered := answered s;
+     armed := armed s; out := out s; undo_acks := S (undo_acks s); ended := ended s; crashed := crashed s |}.
+Definition finish (s : state) : state :=
+  {| hist := hist s; moves := moves s; spawned_on := spawned_on s; enabled := enabled s; answered := answered s;
+     armed := armed s; out := out s; undo_acks := undo_acks s; ended := true; crashed := crashed s |}.
+Definition crash (s : state) : state :=
+  {| hist := hist s; moves := moves s; spawned_on := spawned_on s; enabled := false; answered := answered s;
+     armed := armed s; out := out s; undo_acks := undo_acks s; ended := ended s; crashed := true |}.
+
 Definition step (s : state) (e : event) : state :=
   if ended s || crashed s then s else
   match e with
+  | Closed => finish s                                               (* !ok: return true *)
+  | Late _ => s
   | Answer m =>
-    (* deliverable only once per invocation, only for a live spawn position, and only consumed while enabled *)
+    (* deliverable once per invocation; a thinker given a finished position waits for its context instead *)
     if answered s || over (spawned_on s) then s else
-    let s := {| hist := hist s; moves := moves s; spawned_on := spawned_on s; enabled := enabled s; answered := true;
-                armed := armed s; out := out s; undo_acks := undo_acks s; ended := false; crashed := false |} in
-    if negb (enabled s) then s else
+    let s := set_answered s in
+    if negb (enabled s) then s else                                  (* moves == nil: the select never reads the channel *)
     match apply (cur s) m with
-    | None => restart s                                            (* "ai returned bad move" *)
-    | Some p' =>
-      restart {| hist := p' :: hist s; moves := m :: moves s; spawned_on := spawned_on s; enabled := enabled s;
-                 answered := true; armed := armed s;
-                 out := {| s_pos := cur s; s_for := spawned_on s; s_move := m |} :: out s;
-                 undo_acks := undo_acks s; ended := false; crashed := false |}
+    | None => restart s                                              (* "ai returned bad move": return false *)
+    | Some p' =>                                                     (* SendCommand; record; return false *)
+      restart (set_record (p' :: hist s) (m :: moves s)
+                 (add_sent {| s_pos := cur s; s_for := spawned_on s; s_move := m |} s))
     end
-  | Grace => if armed s then restart s else s
+  | Grace => if armed s then restart s else s                        (* <-timeout: return false *)
   | Line l =>
     match l with
     | LOther => s
+    | LBad => crash s
     | LMove m =>
       match apply (cur s) m with
-      | None => {| hist := hist s; moves := moves s; spawned_on := spawned_on s; enabled := false; answered := answered s;
-                   armed := armed s; out := out s; undo_acks := undo_acks s; ended := false; crashed := true |}   (* panic(err) *)
+      | None => crash s                                              (* panic(err) *)
       | Some p' =>
-        {| hist := p' :: hist s; moves := m :: moves s; spawned_on := spawned_on s;
-           enabled := if fixed then false else enabled s;
-           answered := answered s; armed := true; out := out s; undo_acks := undo_acks s; ended := false; crashed := false |}
+        set_armed (set_enabled (if fixed then false else enabled s) (set_record (p' :: hist s) (m :: moves s) s))
       end
     | LTime => if armed s then restart s else s
-    | LReqUndo =>
-      if accept_undo then
-        {| hist := hist s; moves := moves s; spawned_on := spawned_on s; enabled := false; answered := answered s;
-           armed := armed s; out := out s; undo_acks := S (undo_acks s); ended := false; crashed := false |}
-      else s
+    | LReqUndo => if accept_undo then set_enabled false (add_ack s) else s
     | LUndo =>
       match hist s, moves s with
-      | _ :: (_ :: _) as h', _ :: m' => restart {| hist := h'; moves := m'; spawned_on := spawned_on s; enabled := enabled s;
-                                                   answered := answered s; armed := armed s; out := out s;
-                                                   undo_acks := undo_acks s; ended := false; crashed := false |}
-      | _, _ => {| hist := hist s; moves := moves s; spawned_on := spawned_on s; enabled := false; answered := answered s;
-                   armed := armed s; out := out s; undo_acks := undo_acks s; ended := false; crashed := true |}
+      | _ :: (_ :: _) as h', _ :: m' => restart (set_record h' m' s)
+      | _, _ => crash (set_record (tl (hist s)) (moves s) s)         (* Positions already cut; Moves[:-1]: slice bounds out of range *)
       end
-    | LOver | LAbandoned =>
-      {| hist := hist s; moves := moves s; spawned_on := spawned_on s; enabled := enabled s; answered := answered s;
-         armed := armed s; out := out s; undo_acks := undo_acks s; ended := true; crashed := false |}
+    | LOver | LAbandoned => finish s                                 (* return true *)
     end
   end.
 
-Definition run (evs : list event) : state := fold_left step evs init.
+Definition run_from (s : state) (evs : list event) : state := fold_left step evs s.
+Definition run (evs : list event) : state := run_from init evs.
+
+(* ---------------- the environment: the server, its authoritative history "as communicated" ----------------
+   The server appends the move of every P/M line it sends, removes the last move when it sends Undo (which it
+   does only after the bot accepted, and only if there is a move), appends a move it receives from the bot
+   iff that move is legal in its current position and it is the bot's turn there, and otherwise answers NOK. *)
+Record server := {
+  shist : list pos;           (* authoritative positions, newest first *)
+  smoves : list move;
+  ack : bool;                 (* the bot accepted an undo request and the history has not changed since *)
+  sended : bool;              (* the server ended the game: Over, Abandoned., or the connection is gone *)
+  noks : nat }.               (* moves of the bot the server refused *)
+
+Definition stop (v : server) : pos := hd start (shist v).
+Definition srv_init : server := {| shist := [start]; smoves := []; ack := false; sended := false; noks := 0 |}.
+
+Definition srv_push (p : pos) (m : move) (v : server) : server :=
+  {| shist := p :: shist v; smoves := m :: smoves v; ack := false; sended := sended v; noks := noks v |}.
+Definition srv_end (v : server) : server :=
+  {| shist := shist v; smoves := smoves v; ack := ack v; sended := true; noks := noks v |}.
+
+(* may the server do this now?  (after it ended the game nothing it says matters) *)
+Definition env_allows (v : server) (e : event) : bool :=
+  sended v ||
+  match e with
+  | Line (LMove m) => match apply (stop v) m with Some _ => true | None => false end
+  | Line LBad => false
+  | Line LUndo => ack v && match shist v with _ :: _ :: _ => true | _ => false end
+  | _ => true
+  end.
+
+(* the server's own part of an event *)
+Definition srv_emit (v : server) (e : event) : server :=
+  if sended v then v else
+  match e with
+  | Line (LMove m) => match apply (stop v) m with Some p' => srv_push p' m v | None => v end
+  | Line LUndo => {| shist := tl (shist v); smoves := tl (smoves v); ack := false; sended := false; noks := noks v |}
+  | Line LOver | Line LAbandoned | Closed => srv_end v
+  | _ => v
+  end.
+
+(* what the server receives from the bot during the step s -> s' *)
+Definition srv_hears (v : server) (s s' : state) : server :=
+  let v :=
+    if length (out s) <? length (out s') then
+      match out s' with
+      | o :: _ =>
+        match (if bots_turn (stop v) then apply (stop v) (s_move o) else None) with
+        | Some p' => srv_push p' (s_move o) v
+        | None => {| shist := shist v; smoves := smoves v; ack := ack v; sended := sended v; noks := S (noks v) |}
+        end
+      | [] => v
+      end
+    else v in
+  if undo_acks s <? undo_acks s' then
+    {| shist := shist v; smoves := smoves v; ack := true; sended := sended v; noks := noks v |}
+  else v.
+
+Definition step2 (sv : state * server) (e : event) : state * server :=
+  let '(s, v) := sv in
+  let s' := step s e in
+  (s', srv_hears (srv_emit v e) s s').
+
+(* joint run; None = the environment broke its contract somewhere *)
+Fixpoint run2_from (sv : state * server) (evs : list event) : option (state * server) :=
+  match evs with
+  | [] => Some sv
+  | e :: r => if env_allows (snd sv) e then run2_from (step2 sv e) r else None
+  end.
+Definition run2 (evs : list event) : option (state * server) := run2_from (init, srv_init) evs.
+Definition env_ok (evs : list event) : Prop := run2 evs <> None.
 
 (* every transmitted move was computed for the position current at that moment, on the bot's turn, and is legal there *)
 Definition sent_ok (o : sent) : Prop :=
   s_for o = s_pos o /\ bots_turn (s_pos o) = true /\ apply (s_pos o) (s_move o) <> None.
 
-Definition Inv (s : state) : Prop :=
-  Forall sent_ok (out s) /\ (enabled s = true -> spawned_on s = cur s /\ bots_turn (cur s) = true).
-
-Lemma restart_inv s : Forall sent_ok (out s) -> Inv (restart s).
-Proof. intros H. split; [exact H|]. simpl. intros E. split; [reflexivity|exact E]. Qed.
-
-Lemma step_inv s e : fixed = true -> Inv s -> Inv (step s e).
-Proof.
-  intros Hf [Ho He]. unfold step.
-  destruct (ended s || crashed s); [split; assumption|].
-  destruct e as [l|m|].
-  - destruct l; try (split; assumption).
-    + destruct (apply (cur s) m); (split; [assumption|]); simpl; [rewrite Hf|]; discriminate.
-    + destruct (armed s); [now apply restart_inv|split; assumption].
-    + destruct accept_undo; [|split; assumption]. split; [assumption|]. simpl. discriminate.
-    + destruct (hist s) as [|? [|? ?]]; destruct (moves s); try (split; [assumption|simpl; discriminate]).
-      now apply restart_inv.
-  - destruct (answered s || over (spawned_on s)); [split; assumption|]. cbn [enabled].
-    destruct (enabled s) eqn:E; cbn [negb]; [|split; [assumption|cbn; discriminate]].
-    destruct (He eq_refl) as [Hs Ht].
-    change (cur {| hist := hist s; moves := moves s; spawned_on := spawned_on s; enabled := true; answered := true;
-                  armed := armed s; out := out s; undo_acks := undo_acks s; ended := false; crashed := false |}) with (cur s).
-    destruct (apply (cur s) m) eqn:A.
-    + apply restart_inv. cbn. constructor; [|assumption]. repeat split; cbn; auto. congruence.
-    + now apply restart_inv.
-  - destruct (armed s); [now apply restart_inv|split; assumption].
-Qed.
-
-Theorem bot_sends_only_current : fixed = true -> forall evs, Forall sent_ok (out (run evs)).
-Proof.
-  intros Hf evs. unfold run.
-  assert (H : Inv init) by (apply restart_inv; constructor).
-  revert H. generalize init. induction evs as [|e evs IH]; intros s Hs; simpl; [apply Hs|].
-  apply IH. now apply step_inv.
-Qed.
 End Bot.
-Print Assumptions bot_sends_only_current.
-
-(* the pinned code (fixed = false) is refuted on a toy game: positions = ply counter, every move legal, bot = even plies *)
-Definition toy_run := run nat nat (fun p _ => Some (S p)) Nat.even (fun _ => false) 0 false true
-                          [Line nat (LMove nat 7); Line nat (LMove nat 8); Answer nat 9].
-Eval vm_compute in map (fun o => (s_pos _ _ o, s_for _ _ o)) (out _ _ toy_run).
